@@ -97,3 +97,11 @@ def csv_column_named_like_numpy_excludelist(rec):
     if rec.get("property") != "C13" or not rec.get("what", "").startswith("F-C13g:"):
         return False
     return any(nm in ("file", "print", "return") for nm, _, _ in _cols(rec))
+
+
+def csv_column_name_with_double_quote(rec):
+    """F-C13h: a csv column whose NAME contains a double quote character (numpy's NameValidator always adds '"' to the characters
+    it deletes from names; np.genfromtxt's deletechars argument cannot remove it) comes back without the quote."""
+    if rec.get("property") != "C13" or not rec.get("what", "").startswith("F-C13h:"):
+        return False
+    return any('"' in str(nm) for nm, _, _ in _cols(rec))
